@@ -15,14 +15,17 @@ to_tenmat, to_sptenmat, sptenmat.to_sptensor, from_array, gather_wrap_dims, khat
   IX-dom / IX-seq / IX-pair  on the sparse conversion paths (constructors, to_sptenmat, to_sptensor, full) index arrays address
           the list they were computed for and subscripts / values stay aligned (path-sensitive, E4)
   IX-cnt  sparse results are built from subscripts and values with equal symbolic row counts
+  CYC     gather_wrap_dims lists the column modes of a single-row-mode matricisation as the conventions say: forward cyclic
+          r+1..N-1, 0..r-1 and backward cyclic r-1..0, N-1..r+1 (compared as range pieces over symbolic N and r)
 Not decided: element-for-element equality; empty-side and single-nonzero values; numerics of the Kruskal / Tucker
 reconstruction.
 """
 from __future__ import annotations
 
 import ast
+from typing import Dict, List
 
-from ..model import Program, dotted, TENSOR_CLASSES, AnalysisError, kwarg
+from ..model import Program, dotted, TENSOR_CLASSES, AnalysisError, kwarg, const
 from ..report import Result
 from . import eo_common as E
 
@@ -53,7 +56,7 @@ def check(prog: Program, res: Result, tier: str) -> None:
         "numpy contracts: default order C for reshape/ravel/flatten/unravel_index/ravel_multi_index; transpose(x, p) semantics",
         "trusted row-helper contracts (DESIGN §1); operands well-formed (rows(subs) == rows(vals) == nnz)",
     ]
-    res.floors = {"EO-cls": 7, "EO-1": 18, "KR": 2, "INV": 1, "PS": 4, "REP": 18, "IX-cnt": 2, "IX-dom": 2}
+    res.floors = {"EO-cls": 7, "EO-1": 18, "KR": 2, "INV": 1, "PS": 4, "REP": 18, "IX-cnt": 2, "IX-dom": 2, "CYC": 2}
     for f in FUNCS:
         prog.func(f)
     sel = lambda fi: fi.short in FUNCS
@@ -70,6 +73,148 @@ def check(prog: Program, res: Result, tier: str) -> None:
     I.ix_rules(prog, res, sel, ("IX-dom", "IX-seq", "IX-pair"))
     _matricise_roles(prog, res)
     _spmatrix_shape(prog, res)
+    _cyclic_conventions(prog, res)
+
+
+def _range_pieces(fi, e: ast.expr, sym, depth: int = 0, env=None):
+    """An index list written with range / arange pieces as [(start, stop, step), ...] over the symbols of `sym`; None = not of that form."""
+    import sympy as sp
+    env = env or {}
+    if depth > 8:
+        return None
+
+    def num(x):
+        if isinstance(x, ast.Name) and x.id in env:
+            return num(env[x.id])
+        if isinstance(x, ast.Constant) and isinstance(x.value, int) and not isinstance(x.value, bool):
+            return sp.Integer(x.value)
+        if isinstance(x, ast.UnaryOp) and isinstance(x.op, ast.USub):
+            v = num(x.operand)
+            return None if v is None else -v
+        if isinstance(x, ast.BinOp) and isinstance(x.op, (ast.Add, ast.Sub)):
+            a, b = num(x.left), num(x.right)
+            if a is None or b is None:
+                return None
+            return a + b if isinstance(x.op, ast.Add) else a - b
+        if isinstance(x, ast.Call) and dotted(x.func) == "int" and len(x.args) == 1:
+            return num(x.args[0])
+        t = fi.rtext(x).replace(" ", "")
+        return sym.get(t)
+
+    def rev(ps):
+        out = []
+        for a, b, st in reversed(ps):
+            out.append((b - 1, a - 1, -1) if st == 1 else (b + 1, a + 1, 1))
+        return out
+
+    if isinstance(e, ast.Name):
+        if e.id in env:
+            return _range_pieces(fi, env[e.id], sym, depth + 1, env)
+        r = fi.resolve(e)
+        return None if r is e or isinstance(r, ast.Name) else _range_pieces(fi, r, sym, depth + 1, env)
+    if isinstance(e, ast.BinOp) and isinstance(e.op, ast.Add):
+        a, b = _range_pieces(fi, e.left, sym, depth + 1, env), _range_pieces(fi, e.right, sym, depth + 1, env)
+        return None if a is None or b is None else a + b
+    if isinstance(e, (ast.List, ast.Tuple)):
+        out = []
+        for x in e.elts:
+            if not isinstance(x, ast.Starred):
+                return None
+            ps = _range_pieces(fi, x.value, sym, depth + 1, env)
+            if ps is None:
+                return None
+            out += ps
+        return out
+    if isinstance(e, ast.ListComp) and len(e.generators) == 1 and not e.generators[0].ifs and isinstance(e.elt, ast.Name) \
+            and isinstance(e.generators[0].target, ast.Name) and e.elt.id == e.generators[0].target.id:
+        return _range_pieces(fi, e.generators[0].iter, sym, depth + 1, env)
+    if isinstance(e, ast.Subscript) and isinstance(e.slice, ast.Slice) and e.slice.lower is None and e.slice.upper is None \
+            and e.slice.step is not None and const(e.slice.step) == -1:
+        ps = _range_pieces(fi, e.value, sym, depth + 1, env)
+        return None if ps is None else rev(ps)
+    if isinstance(e, ast.Call):
+        nm = dotted(e.func) or ""
+        base = nm.split(".")[-1]
+        if base in ("array", "asarray", "list", "tuple") and len(e.args) >= 1:
+            return _range_pieces(fi, e.args[0], sym, depth + 1, env)
+        if base in ("concatenate", "hstack") and e.args and isinstance(e.args[0], (ast.Tuple, ast.List)):
+            out = []
+            for x in e.args[0].elts:
+                ps = _range_pieces(fi, x, sym, depth + 1, env)
+                if ps is None:
+                    return None
+                out += ps
+            return out
+        if base in ("reversed", "flip") and len(e.args) == 1:
+            ps = _range_pieces(fi, e.args[0], sym, depth + 1, env)
+            return None if ps is None else rev(ps)
+        if base in ("range", "arange") and 1 <= len(e.args) <= 3 and not e.keywords:
+            vals = [num(x) for x in e.args]
+            if any(v is None for v in vals):
+                return None
+            if len(vals) == 1:
+                return [(sp.Integer(0), vals[0], 1)]
+            st = 1 if len(vals) == 2 else vals[2]
+            if st not in (1, -1):
+                return None
+            return [(vals[0], vals[1], int(st))]
+    return None
+
+
+def _cyclic_conventions(prog: Program, res: Result) -> None:
+    """gather_wrap_dims: with one row mode r of an N-way tensor the column modes are
+         forward cyclic  "fc": r+1, ..., N-1, 0, ..., r-1        backward cyclic "bc": r-1, ..., 0, N-1, ..., r+1
+    (Kiers / De Lathauwer et al., as the docstring states). Decided on the range pieces the two lists are written with."""
+    import sympy as sp
+    fi = prog.func("pyttb_utils.gather_wrap_dims")
+    params = fi.params()
+    if len(params) < 3:
+        raise AnalysisError("gather_wrap_dims: unexpected signature")
+    N, r = sp.Symbol("N", integer=True), sp.Symbol("r", integer=True)
+    sym = {params[0]: N, f"{params[1]}[0]": r, f"{params[1]}.item()": r}
+    want = {"fc": [(r + 1, N, 1), (sp.Integer(0), r, 1)], "bc": [(r - 1, sp.Integer(-1), -1), (N - 1, r, -1)]}
+    names = {"fc": "forward cyclic (r+1..N-1, 0..r-1)", "bc": "backward cyclic (r-1..0, N-1..r+1)"}
+    found: Dict[str, List[ast.Assign]] = {}
+
+    def literal_of(test: ast.expr):
+        if isinstance(test, ast.Compare) and len(test.ops) == 1 and isinstance(test.ops[0], ast.Eq):
+            for a, b in ((test.left, test.comparators[0]), (test.comparators[0], test.left)):
+                if isinstance(b, ast.Constant) and isinstance(b.value, str) and "cyclic" in fi.rtext(a):
+                    return b.value
+        return None
+
+    for n in ast.walk(fi.node):
+        if isinstance(n, ast.If):
+            lit = literal_of(n.test)
+            if lit in want:
+                local = {}
+                for st in n.body:
+                    if isinstance(st, ast.Assign) and len(st.targets) == 1 and isinstance(st.targets[0], ast.Name) and st.targets[0].id == params[2]:
+                        found.setdefault(lit, []).append((st, dict(local)))
+                    elif isinstance(st, ast.Assign) and len(st.targets) == 1 and isinstance(st.targets[0], ast.Name):
+                        local[st.targets[0].id] = st.value      # straight-line locals of the branch (re-used names in sibling branches)
+
+    def norm(ps):
+        # empty pieces are dropped only when provably empty; equal adjacent directions are not merged (not needed)
+        return [(sp.simplify(a), sp.simplify(b), st) for a, b, st in ps]
+    for lit in ("fc", "bc"):
+        desc = f'the "{lit}" column modes are {names[lit]}'
+        sts = found.get(lit, [])
+        if not sts:
+            res.undecided("CYC", fi.short, desc, prog.loc(fi), f'no assignment to `{params[2]}` under a test of the convention against "{lit}"')
+            continue
+        for st, local in sts:
+            ps = _range_pieces(fi, st.value, sym, 0, local)
+            if ps is None:
+                res.undecided("CYC", fi.short, desc, prog.loc(fi, st), "the list is not written with range pieces over ndims and rdims[0]")
+            elif norm(ps) == norm(want[lit]):
+                res.ok("CYC", fi.short, desc, prog.loc(fi, st), "; ".join(f"range({a}, {b}, {s_})" for a, b, s_ in ps))
+            else:
+                res.bad("CYC", fi.short, desc, prog.loc(fi, st),
+                        "the list is " + " + ".join(f"range({a}, {b}, {s_})" for a, b, s_ in ps) + ", the convention is " +
+                        " + ".join(f"range({a}, {b}, {s_})" for a, b, s_ in want[lit]) +
+                        " — the matricised object stays self-consistent, but its columns are not in the order the convention (and every "
+                        "consumer relying on it) states")
 
 
 def _spmatrix_shape(prog: Program, res: Result) -> None:
